@@ -33,6 +33,7 @@ from vf.hyp import drive, st
 from vf.runner import Collector
 
 ID = "C06"
+EARLY_ATTRIBUTION = True  # region predicates are cheap scans of the stored case
 LEVEL = "exploration"
 EXHAUSTIVE = True
 RULE = ("A pattern AST and a host-graph AST over {Neg, Add(commutative), Sub, Split(2 outputs), custom::Foo} are compiled (i) to "
